@@ -16,6 +16,7 @@ type histOp struct {
 	Ct      int          `json:"ct,omitempty"`
 	Fr      int          `json:"fr,omitempty"`
 	Prefill bool         `json:"prefill,omitempty"`
+	Alias   bool         `json:"alias,omitempty"`
 }
 
 func junkPaths() clip.Paths64 {
@@ -95,7 +96,11 @@ func cmdC12(r *RNG, n int, e *Emitter, args []string) {
 				}
 				kind := []string{"exec", "execOC", "tree", "exec", "execOC"}[r.Intn(5)]
 				prefill := r.Bool() && kind != "tree"
-				hist = append(hist, histOp{Kind: kind, Ct: int(ct), Fr: int(fr), Prefill: prefill})
+				// the solution argument holds path slices the caller still owns (copies of what it added): they are the
+				// caller's data and must come back unmodified ("replaced", not written through)
+				alias := !useD && !prefill && kind != "tree" && r.Intn(3) == 0
+				var keep, keep0 clip.Paths64
+				hist = append(hist, histOp{Kind: kind, Ct: int(ct), Fr: int(fr), Prefill: prefill, Alias: alias})
 				nexec++
 				// the reference: a fresh engine given the same paths, one call per kind
 				var gotC, gotO, wantC, wantO clip.Paths64
@@ -141,6 +146,11 @@ func cmdC12(r *RNG, n int, e *Emitter, args []string) {
 						if prefill {
 							a, b = junkPaths(), junkPaths()
 						}
+						if alias {
+							keep = append(clonePaths(subj), clonePaths(clp)...)
+							keep0 = clonePaths(keep)
+							a = append(clip.Paths64{}, keep...)
+						}
 						switch kind {
 						case "exec":
 							c64.Execute(ct, fr, &a)
@@ -176,6 +186,11 @@ func cmdC12(r *RNG, n int, e *Emitter, args []string) {
 				})
 				if perr != "" {
 					fail("panic: "+perr, nil)
+					ok = false
+					break
+				}
+				if alias && !pathsEqual(keep, keep0) {
+					fail("Execute wrote through the path slices found in the solution argument: the caller's paths were modified", map[string]any{"caller_paths_before": pathsJSON(keep0), "caller_paths_after": pathsJSON(keep)})
 					ok = false
 					break
 				}
